@@ -12,6 +12,10 @@ import (
 func main() {
 	w := vc.NewWriter(os.Args[1])
 	defer w.Close()
+	if len(os.Args) > 2 && os.Args[2] == "enforce" {
+		enforcePart(w, vc.NewRand(vc.Seed()))
+		return
+	}
 	emit := func(s string) {
 		d, ok := grpcadapter.VerifDecodeTimeout(s)
 		// non-trivial: ends in a unit letter and has at least one character before it
